@@ -223,6 +223,7 @@ def run_flow(case):
                     (f.response if is_resp else f.request).stream = policy_value(pols[is_resp])
             if h.name == "error":
                 seen["err"].append(f.error.msg if f.error else "")
+            seen.setdefault("hooks", []).append(h.name)
         w = World(lay, ctx, on_hook=on_hook)
         w.start()
 
@@ -233,6 +234,7 @@ def run_flow(case):
             body = b"".join(chunks)
             framing = sub["framing"]
             err0 = len(seen["err"])
+            hook0 = len(seen.get("hooks", []))
             samples, head_at = [], [None]
             peer = "client" if resp else "server0"
 
@@ -307,6 +309,11 @@ def run_flow(case):
                 "n_deliveries": len(deliveries),
                 "proto_err": any("HTTP/1 protocol error" in e for e in errs),
                 "trailer": trailer_seen(lay, ctx, resp, w, any("HTTP/1 protocol error" in e and "peer closed connection" not in e for e in errs)),
+                # what else the outside sees of HttpStream's outputs: hooks of this direction, the error sent upstream
+                "n_headers_hook": seen.get("hooks", [])[hook0:].count("responseheaders" if resp else "requestheaders"),
+                "n_message_hook": seen.get("hooks", [])[hook0:].count("response" if resp else "request"),
+                "server_killed": any(t[0] == "close" and t[1] == "server0" and t[2] is False for t in w.trace),
+                "end_seen": (bool(framing_ok) and leftover == b"") if (relayed and out_framing == "chunked") else None,
             }
         if not resp_main:
             return phase(False, case)
@@ -372,6 +379,7 @@ def run_x2(case):
                     (f.response if is_resp else f.request).stream = policy_value(pols[is_resp])
             if h.name == "error":
                 seen["err"].append((f.error.msg if f.error else ""))
+            seen.setdefault("hooks", []).append(h.name)
         w = World(lay, ctx, on_hook=on_hook)
         w.start()
         cl = H2Peer(True) if cp == "h2" else None
@@ -516,7 +524,12 @@ def run_x2(case):
                     "leftover_hex": hx(left), "samples": sd["samples"],
                     "content_hex": None if content is None else hx(content),
                     "crash": [e[0] + ": " + e[1] for e in w.errors] + seen.get("h2err", []),
-                    "n_deliveries": sd["n"], "proto_err": False, "trailer": False}
+                    "n_deliveries": sd["n"], "proto_err": False, "trailer": False,
+                    "n_headers_hook": seen.get("hooks", []).count("responseheaders" if resp else "requestheaders"),
+                    "n_message_hook": seen.get("hooks", []).count("response" if resp else "request"),
+                    "server_killed": (sv[0] is not None and sv[0].reset) if sp == "h2" else
+                                     any(t[0] == "close" and t[1] == "server0" and t[2] is False for t in w.trace),
+                    "end_seen": None}
         obs_req = side_obs(False)
         obs_resp = side_obs(True) if resp_done[0] else None
         return {"rejected": False, "pre": obs_req, "main": obs_resp, "at": resp_pos[0], "crash": obs_req["crash"]}
@@ -928,6 +941,8 @@ class Check(PropertyCheck):
         for sub, e in ((req, "cl:0"), (rsp, "eof")):
             if sub["framing"] == "nocl":        # HTTP/2 message without content-length: head, DATA frames, END_STREAM
                 sub["framing"], sub["exp"] = "chunked", e
+        if case["op"] == "x2":      # the end-of-message bit is only compared on HTTP/1 chunked peers of one-protocol cases
+            req["h2peer"] = rsp["h2peer"] = True
         return [("req", req, obs["pre"]), ("resp", rsp, obs["main"])]
 
     def oracle(self, case, obs):
@@ -1183,11 +1198,17 @@ class Check(PropertyCheck):
             return {"req": mq, "resp": None if (mq["err"] and case["op"] == "exch") else mr}
         f = r.split(" ")
         err, relayed, samples, peer, content = f[0] == "1", f[1] == "1", [int(x) for x in f[2].split(",")], f[3], f[4]
+        def extras(x, chunked_out):
+            # errClient (reached the client), errServer, headers-hook count, message-hook count, sendEnd (observable on a
+            # chunked peer side only)
+            return {"errc": x[0] == "1", "errs": x[1] == "1", "nh": int(x[2]), "nm": int(x[3]),
+                    "end": (x[4] == "1") if (relayed and chunked_out) else None}
         if case["op"] == "wire":
             # here the model itself groups the bytes into data events: one sample per delivery, and the reader's verdict
             if f[5] == "2": return "unsupported-trailer"
             return {"err": err, "relayed": relayed, "samples": samples, "peer": [] if peer == "-" else peer.split(","),
-                    "content": None if content == "none" else content, "proto_err": f[5] == "1"}
+                    "content": None if content == "none" else content, "proto_err": f[5] == "1",
+                    **extras(f[6:11], case["framing"] == "chunked")}
         # model samples are per event (headers, data..., eom); deliveries group them
         chunks = case["chunks"]
         n = len(chunks)
@@ -1197,7 +1218,8 @@ class Check(PropertyCheck):
         if case["framing"] == "cl": groups[-1] = n + 1      # the delivery that completes the body also ends the message
         else: groups.append(n + 1)
         return {"err": err, "relayed": relayed, "samples": [samples[g] for g in groups],
-                "peer": [] if peer == "-" else peer.split(","), "content": None if content == "none" else content}
+                "peer": [] if peer == "-" else peer.split(","), "content": None if content == "none" else content,
+                **extras(f[5:10], case["framing"] == "chunked" and not case.get("h2peer"))}
 
     def impl_view(self, case, obs):
         if case["op"] == "size":
@@ -1213,8 +1235,13 @@ class Check(PropertyCheck):
                     "resp": None if obs["main"] is None else self.impl_view(subs[1][1], obs["main"])}
         if obs.get("trailer"): return "unsupported-trailer"
         errored = any(LIMIT_MSG in e for e in obs["errors"])
+        resp = case["dir"] == "resp"
         v = {"err": errored, "relayed": obs["relayed"], "samples": obs["samples"], "peer": obs["peer_chunks"],
-             "content": obs["content_hex"]}
+             "content": obs["content_hex"],
+             # "the client receives an error" / the error sent upstream, the hooks of this direction, the end of the message
+             "errc": errored and obs["client_status"] is not None and obs["client_status"] >= 400,
+             "errs": errored and resp and bool(obs["server_killed"]),
+             "nh": obs["n_headers_hook"], "nm": obs["n_message_hook"], "end": obs["end_seen"]}
         if case["op"] == "wire": v["proto_err"] = obs["proto_err"]
         return v
 
